@@ -233,6 +233,27 @@ def goal_lanelets(V):
     c.prove("goal states survive exactly")
 
 
+@obligation("C02", "values.unwrapped-orientation", functions=F,
+            bounds="planning-problem initial state and a time-only goal: exact orientation anywhere in [-50, 50] (an accumulated, unwrapped yaw), velocity "
+                   "in [-1e6, 1e6], position in [-1e6, 1e6]^2: every value is read back as the identical term")
+def unwrapped_orientation(V):
+    warnings.filterwarnings("ignore")
+    sc = xmlrt.base_scenario()
+    sc.add_objects(fx.straight_lanelet(1))
+    th, v = V.real("orientation", -50, 50), V.real("velocity", -1e6, 1e6)
+    x, y = V.real("x", -1e6, 1e6), V.real("y", -1e6, 1e6)
+    init = st.InitialState(time_step=0, position=np.array([x, y]), orientation=th, velocity=v, acceleration=0.0, yaw_rate=0.0, slip_angle=0.0)
+    pps = PlanningProblemSet([PlanningProblem(5, init, GoalRegion([st.CustomState(time_step=Interval(1, 5))]))])
+    _, pps2 = read(V, write(V, sc, pps))
+    p2 = pps2.planning_problem_dict.get(5)
+    V.prove("planning problem read back", p2 is not None)
+    if p2 is None:
+        return
+    s2 = p2.initial_state
+    V.prove("orientation, velocity and position are read back exactly", V.And(V.eq(s2.orientation, th), V.eq(s2.velocity, v), V.eq(s2.position[0], x),
+                                                                             V.eq(s2.position[1], y)))
+
+
 @obligation("C02", "stub-vs-real", functions=["symex/pbstub.py (validation of the stub, not of the library)"],
             bounds="concrete scenarios (every skeleton at fixed leaf values): the stub message tree equals, field by field, the real message the same "
                    "writer code builds with google.protobuf, and the reader produces equal objects from both")
